@@ -1,6 +1,7 @@
 package c40
 
 import (
+	"strings"
 	"bytes"
 	"context"
 	"crypto/sha256"
@@ -721,6 +722,87 @@ func TestC40(t *testing.T) {
 							x.Keypairs = append(x.Keypairs, &envelope.EnvelopeKeypair{})
 						}
 						emit("field", fmt.Sprintf("f%d/%s", ei, f), must(x.MarshalVT()))
+					}
+				}
+				// grants forged by someone who knows the recipients' PUBLIC keys: each
+				// grant decrypts for its recipient and carries a chosen list of shares
+				// (drawn from: the two real shares, a real id with another value, the
+				// zero id, a non-canonical encoding of a real id). Every assignment of
+				// share lists of length <= 2 to two grants, and of length <= 1 to three
+				// grants, for thresholds 1 and 2.
+				var real []*envelope.EnvelopeShare
+				for gi, gr := range e1.GetGrants() {
+					d, err := peer.DecryptWithPrivKey(privs[gr.GetKeypairIndexes()[0]], envelope.VerifBuildGrantEncContext(e1.GetEnvelopeId(), ectx, gi), gr.GetCiphertexts()[0])
+					if err != nil {
+						evid.Fatal("c40: cannot open fixture grant: %v", err)
+					}
+					in := &envelope.EnvelopeGrantInner{}
+					if err := in.UnmarshalVT(d); err != nil || len(in.GetShares()) != 1 {
+						evid.Fatal("c40: fixture grant inner: %v", err)
+					}
+					real = append(real, in.GetShares()[0])
+				}
+				// non-canonical encoding of share 0's id: add the group order l to the
+				// little-endian scalar if that fits in 32 bytes (decoders may reduce or reject)
+				order := []byte{0xed, 0xd3, 0xf5, 0x5c, 0x1a, 0x63, 0x12, 0x58, 0xd6, 0x9c, 0xf7, 0xa2, 0xde, 0xf9, 0xde, 0x14, 0, 0, 0, 0, 0, 0, 0, 0, 0, 0, 0, 0, 0, 0, 0, 0x10}
+				nc := make([]byte, 32)
+				carry := 0
+				for i := 0; i < 32; i++ {
+					v := int(real[0].GetId()[i]) + int(order[i]) + carry
+					nc[i], carry = byte(v), v>>8
+				}
+				alpha := []*envelope.EnvelopeShare{
+					real[0], real[1],
+					{Id: real[0].GetId(), Value: real[1].GetValue()},
+					{Id: make([]byte, 32), Value: real[0].GetValue()},
+					{Id: nc, Value: real[0].GetValue()},
+				}
+				names := []string{"s0", "s1", "s0id-s1val", "zeroid", "s0id-noncanonical"}
+				var lists [][]int
+				lists = append(lists, nil)
+				for a := range alpha {
+					lists = append(lists, []int{a})
+				}
+				n1 := len(lists)
+				for a := range alpha {
+					for b := range alpha {
+						lists = append(lists, []int{a, b})
+					}
+				}
+				forge := func(th uint32, assign [][]int) {
+					x := e1.CloneVT()
+					x.Threshold = th
+					x.Grants = nil
+					var desc []string
+					for gi, l := range assign {
+						in := &envelope.EnvelopeGrantInner{}
+						var d []string
+						for _, a := range l {
+							in.Shares = append(in.Shares, alpha[a])
+							d = append(d, names[a])
+						}
+						kp := uint32(gi % 2)
+						ct, err := peer.EncryptToPubKey(pubs[kp], envelope.VerifBuildGrantEncContext(x.GetEnvelopeId(), ectx, gi), must(in.MarshalVT()))
+						if err != nil {
+							evid.Fatal("c40: forge: %v", err)
+						}
+						x.Grants = append(x.Grants, &envelope.EnvelopeGrant{KeypairIndexes: []uint32{kp}, Ciphertexts: [][]byte{ct}})
+						desc = append(desc, "["+strings.Join(d, ",")+"]")
+					}
+					emit("forged-grants", fmt.Sprintf("t%d/%s", th, strings.Join(desc, "")), must(x.MarshalVT()))
+				}
+				for _, th := range []uint32{1, 2} {
+					for _, a := range lists {
+						for _, b := range lists {
+							forge(th, [][]int{a, b})
+						}
+					}
+					for _, a := range lists[:n1] {
+						for _, b := range lists[:n1] {
+							for _, c := range lists[:n1] {
+								forge(th, [][]int{a, b, c})
+							}
+						}
 					}
 				}
 			},
